@@ -340,20 +340,32 @@ class History:
                         return "its command never ran: it is needed through a dependency newly declared in the manifest for a command whose command line did not change"
             return "its command never ran"
         t = self.last_ok[st.name]
-        cls = set()
+        cls, soft = set(), set()
         if self.ok_cmdline.get(st.name) != self.cmdline(st):
             cls.add("command line")
-        if self.ok_deps.get(st.name) != self.deps_of(st):
-            cls.add("declared inputs in the manifest")
+        old = self.ok_deps.get(st.name)
+        deps_changed = old != self.deps_of(st)
+        old_direct = (set(old[0]) | set(old[1])) if old else set()
+        if deps_changed:
+            soft.add("declared inputs in the manifest")
         for o in st.outs:
             if self.changed_at.get(o, 0) > t:
                 cls.add("deleted output")
         for f, c in self.data_inputs(st):
             if self.changed_at.get(f, 0) > t:
-                cls.add(c + " input")
+                # with an edited input list, a changed input that the statement did not have when it last ran (directly, or possibly
+                # through an alias) is what the known finding is about; a changed input it already had is not
+                if deps_changed and c in ("explicit", "implicit") and f not in old_direct:
+                    soft.add("newly declared %s input" % c)
+                elif deps_changed and c.endswith("-through-phony"):
+                    soft.add("possibly newly declared %s input" % c)
+                else:
+                    cls.add(c + " input")
         if st.name in self.failed_last:
             cls.add("previous failure")
-        return "its command did not re-run although changed: " + ", ".join(sorted(cls) or ["(nothing the harness tracked)"])
+        if cls and soft:
+            return "its command did not re-run although changed: " + ", ".join(sorted(cls)) + " (its input list was edited as well)"
+        return "its command did not re-run although changed: " + ", ".join(sorted(cls) + sorted(soft) or ["(nothing the harness tracked)"])
 
     def check_converged(self, b, target):
         """After a successful build: every output reachable from the target equals the clean-build content. Returns False to stop."""
